@@ -87,7 +87,9 @@ PROPS["C01"] = dict(
     level_note="Trusted: TLC; the harness's mapping of abstract tokens to real primaries (-name/-iname/-regex tests on letters it puts into the "
                "file names, labelled -printf/-print0/-print actions, several always-true options) and its decoding of the output records. "
                "A leading ',' or ')' is not judged (operand scan). Bounds in spec/mc/MC_Expr_*.cfg.",
-    mc=[dict(module="mc/MC_Expr.tla", cfg=dict(quick="mc/MC_Expr_quick.cfg", thorough="mc/MC_Expr_thorough.cfg"), workers=8)],
+    mc=[dict(module="mc/MC_Expr.tla", cfg=dict(quick="mc/MC_Expr_quick.cfg", thorough="mc/MC_Expr_thorough.cfg"), workers=8),
+        # the composed specification on a bounded space of real primaries (laws tie it to its parts; exact stdout bytes as vectors)
+        dict(module="mc/MC_Sem.tla", cfg=dict(quick="mc/MC_Sem_quick.cfg", thorough="mc/MC_Sem_thorough.cfg"), workers=6, vh="SEM")],
     record=dict(quick=1500, thorough=40000),
     selftest=dict(quick=40, thorough=200),
     trace=dict(module="trace/T_Expr.tla", cfg="trace/T_Expr.cfg"),
